@@ -93,7 +93,7 @@ class FunInfo:
 
 
 class FunTranslator:
-    def __init__(self, node, classes, funs):
+    def __init__(self, node, classes, funs, strtab=None):
         self.node, self.classes, self.funs = node, classes, funs
         a = node.args
         if a.vararg or a.kwarg or a.kwonlyargs or a.defaults or a.posonlyargs or node.decorator_list:
@@ -102,7 +102,8 @@ class FunTranslator:
         self.locals = []
         self.mutated = set()
         self.tmp = 0
-        self.uses_oracle = False
+        self.oracles = []
+        self.strtab = strtab if strtab is not None else {}
 
     # ---- names
     def local(self, name, node):
@@ -137,6 +138,8 @@ class FunTranslator:
                 return f"(EBool {'true' if e.value else 'false'})"
             if isinstance(e.value, int):
                 return f"(EInt {cz(e.value)})"
+            if isinstance(e.value, str):
+                return f"(EStr {cz(self.strtab.setdefault(e.value, 1000 + len(self.strtab)))})"
             _bad(e, f"constant {e.value!r}")
         if isinstance(e, ast.Name):
             return f"(EVar {cstr(self.name(e))})"
@@ -182,14 +185,29 @@ class FunTranslator:
         if isinstance(e, ast.Attribute):
             return f"(EField {self.expr(e.value)} {self.getter_cands(e.attr, e, False)})"
         if isinstance(e, ast.Call):
+            f = e.func
+            if (isinstance(f, ast.Attribute) and f.attr == "asarray" and isinstance(f.value, ast.Name)
+                    and f.value.id == "np" and len(e.args) == 1 and len(e.keywords) == 1
+                    and e.keywords[0].arg == "dtype"):
+                dt = e.keywords[0].value
+                name = dt.attr if isinstance(dt, ast.Attribute) and isinstance(dt.value, ast.Name) \
+                    and dt.value.id == "np" else (dt.id if isinstance(dt, ast.Name) else None)
+                ranges = {"int64": (-2**63, 2**63 - 1), "int32": (-2**31, 2**31 - 1), "uint8": (0, 255),
+                          "object": (None, None)}
+                if name not in ranges:
+                    _bad(e, f"np.asarray with dtype {name}")
+                lo, hi = ranges[name]
+                o = lambda v: "None" if v is None else f"(Some {cz(v)})"
+                return f"(EAsArray {o(lo)} {o(hi)} {self.expr(e.args[0])})"
             if e.keywords:
                 _bad(e, "keyword arguments")
-            f = e.func
             if isinstance(f, ast.Name):
                 if f.id == "len" and len(e.args) == 1:
                     return f"(ELen {self.expr(e.args[0])})"
                 if f.id == "range" and len(e.args) == 1:
                     return f"(ERange {self.expr(e.args[0])})"
+                if f.id == "int" and len(e.args) == 1:
+                    return f"(EToInt {self.expr(e.args[0])})"
                 if f.id in self.classes:
                     ci = self.classes[f.id]
                     if len(e.args) != len(ci.fields):
@@ -203,6 +221,10 @@ class FunTranslator:
                         _bad(e, f"{f.id}() with {len(e.args)} arguments")
                     return f"(ECall {cstr(f.id)} {clist(self.expr(x) for x in e.args)})"
                 _bad(e, f"call of {f.id}")
+            if isinstance(f, ast.Attribute) and f.attr == "asarray" and isinstance(f.value, ast.Name) \
+                    and f.value.id == "np" and len(e.args) == 1:
+                # handled below (keywords carry the dtype)
+                pass
             if isinstance(f, ast.Attribute) and not e.args:
                 return f"(EField {self.expr(f.value)} {self.getter_cands(f.attr, e, True)})"
             if isinstance(f, ast.Attribute) and f.attr == "index" and len(e.args) == 1:
@@ -258,6 +280,17 @@ class FunTranslator:
             return e.args[0].value
         return None
 
+    @staticmethod
+    def np_random(e, fn, nargs):
+        return (isinstance(e, ast.Call) and not e.keywords and len(e.args) == nargs
+                and isinstance(e.func, ast.Attribute) and e.func.attr == fn
+                and isinstance(e.func.value, ast.Attribute) and e.func.value.attr == "random"
+                and isinstance(e.func.value.value, ast.Name) and e.func.value.value.id == "np")
+
+    def use_oracle(self, stream):
+        if stream not in self.oracles:
+            self.oracles.append(stream)
+
     def is_fun_call(self, e):
         return isinstance(e, ast.Call) and isinstance(e.func, ast.Name) and e.func.id in self.funs \
             and self.funs[e.func.id].mutated
@@ -285,12 +318,30 @@ class FunTranslator:
             if len(s.targets) != 1:
                 _bad(s, "multiple assignment targets")
             t = s.targets[0]
+            if isinstance(t, ast.Tuple) and all(isinstance(x, ast.Name) for x in t.elts) \
+                    and isinstance(s.value, ast.Call) and isinstance(s.value.func, ast.Name) \
+                    and s.value.func.id in self.funs:
+                # a, b = f(...): hoisted; unpacking a result of another length is a ValueError
+                tmp = self.fresh()
+                fi = self.funs[s.value.func.id]
+                call = self.call_stmt(tmp, s.value) if fi.mutated else \
+                    f"(SAssign {cstr(tmp)} {self.expr(s.value)})"
+                out = [call, f"(SIf (ECmp CNe (ELen (EVar {cstr(tmp)})) (EInt {len(t.elts)})) (SRaise 1) SSkip)"]
+                for k, x in enumerate(t.elts):
+                    out.append(f"(SAssign {cstr(x.id)} (EIndex (EVar {cstr(tmp)}) (EInt {k})))")
+                r = out[-1]
+                for st in reversed(out[:-1]):
+                    r = f"(SSeq {st}\n {r})"
+                return r
             if isinstance(t, ast.Name):
+                if self.np_random(s.value, "choice", 1):
+                    self.use_oracle("$choices")
+                    return f"(SChoice {cstr(t.id)} {self.expr(s.value.args[0])})"
                 if self.is_fun_call(s.value):
                     return self.call_stmt(t.id, s.value)
                 ob = self.oracle_bound(s.value)
                 if ob is not None:
-                    self.uses_oracle = True
+                    self.use_oracle("$draws")
                     return f"(SOracle {cstr(t.id)} {cz(ob)})"
                 return f"(SAssign {cstr(t.id)} {self.expr(s.value)})"
             if isinstance(t, ast.Subscript) and isinstance(t.value, ast.Name) and not isinstance(t.slice, ast.Slice):
@@ -311,6 +362,11 @@ class FunTranslator:
                 lv, nm = self.lval(v.func.value, "append target")
                 self.mark_mutated(nm, s)
                 return f"(SAppend {lv} {self.expr(v.args[0])})"
+            if self.np_random(v, "shuffle", 1):
+                lv, nm = self.lval(v.args[0], "shuffle target")
+                self.mark_mutated(nm, s)
+                self.use_oracle("$shuffles")
+                return f"(SShuffle {lv})"
             if isinstance(v, ast.Call) and isinstance(v.func, ast.Attribute) and v.func.attr == "extend" \
                     and len(v.args) == 1 and not v.keywords:
                 lv, nm = self.lval(v.func.value, "extend target")
@@ -373,6 +429,12 @@ class FunTranslator:
             elif isinstance(n, (ast.FunctionDef, ast.Lambda, ast.ListComp, ast.GeneratorExp, ast.DictComp,
                                 ast.SetComp, ast.Global, ast.Nonlocal, ast.With, ast.Try)) and n is not self.node:
                 _bad(n, f"{type(n).__name__} inside a translated function")
+            if isinstance(n, ast.Assign) and len(n.targets) == 1 and isinstance(n.targets[0], ast.Tuple):
+                for x in n.targets[0].elts:
+                    if isinstance(x, ast.Name) and x.id not in names and x.id not in self.params:
+                        names.append(x.id)
+            if t and t in self.params:
+                self.assigned_params.add(t)
             if t and t not in names and t not in self.params:
                 names.append(t)
         return names
@@ -400,14 +462,19 @@ class FunTranslator:
 
     def run(self):
         self.alias_names = self.collect_aliases()
+        self.assigned_params = set()
         self.assigned = self.collect_assigned()
         self.locals = list(self.assigned)
         self.iterating = []
         body = self.block(self.node.body)
-        if self.uses_oracle:
-            # the recorded draw stream is an extra, mutated, last parameter
-            self.params = self.params + ["$draws"]
+        for stream in self.oracles:
+            # each recorded draw stream is an extra, mutated, trailing parameter
+            self.params = self.params + [stream]
             self.mutated.add(len(self.params) - 1)
+        # a parameter that is both rebound and mutated in place has no by-value reading
+        for i in list(self.mutated):
+            if self.params[i] in self.assigned_params:
+                _bad(self.node, f"parameter {self.params[i]} is both rebound and mutated")
         text = (f"Definition src_{self.node.name} : fundef :=\n  mkfun {clist(cstr(p) for p in self.params)} "
                 f"{clist(cstr(x) for x in self.locals)}\n {body}.\n")
         return text, FunInfo(self.node.name, self.params, self.mutated)
@@ -453,7 +520,7 @@ def translate(spec, repo):
                 trees[rel] = ast.parse(f.read())
         return trees[rel]
 
-    classes, funs = {}, {}
+    classes, funs, strtab = {}, {}, {}
     out = ["(* GENERATED by harness/pytrans.py from the current source of the repository - do not edit *)",
            "From HV Require Import Prelude MiniPy.", "From Coq Require Import String.",
            "Open Scope string_scope.", "Open Scope Z_scope.", ""]
@@ -477,7 +544,7 @@ def translate(spec, repo):
         if len(item) > 2:
             node = slice_function(node, item[2])
             fname = node.name
-        text, fi = FunTranslator(node, classes, funs).run()
+        text, fi = FunTranslator(node, classes, funs, strtab).run()
         funs[fname] = fi
         out.append(f"(* {rel}: {fname}({', '.join(fi.params)}); mutates parameters {sorted(fi.mutated)} *)")
         out.append(text)
@@ -486,6 +553,10 @@ def translate(spec, repo):
         out.append(f"Definition ft_{k} (fuel : nat) : ftable := ft_add {cstr(fname)} (fn_{fname} fuel) ({prev_ft}).")
         out.append("")
         prev_ft = f"ft_{k} fuel"
+    out.append("(* string literals of the translated functions, as opaque tokens (EStr / VStr) *)")
+    for lit, tok in strtab.items():
+        ident = "".join(c if c.isalnum() else "_" for c in lit) or "empty"
+        out.append(f"Definition strlit_{ident} : Z := {tok}.  (* {lit!r} *)")
     return "\n".join(out)
 
 
